@@ -20,7 +20,13 @@ import (
 
 // spawnErrLookup runs one lookup that must fail in its own thread, its consumer in another.
 func spawnErrLookup[T any](h *hctx, name string, lo *storage.LookupOptions, capacity int, nilChan bool, call func(ch chan T) error) {
-	rec := &lookupRec{name: name, in: gin{Kind: "lookup", LK: name}, lo: lo, nilChan: nilChan, wantErr: true}
+	spawnAnyLookup(h, name, lo, capacity, nilChan, true, call)
+}
+
+// spawnAnyLookup: wantErr=false is a lookup that must succeed; its elements are not put through the
+// sequential model (noModel): closure, error and the caller's options (before, at every receive, after).
+func spawnAnyLookup[T any](h *hctx, name string, lo *storage.LookupOptions, capacity int, nilChan, wantErr bool, call func(ch chan T) error) {
+	rec := &lookupRec{name: name, in: gin{Kind: "lookup", LK: name}, lo: lo, nilChan: nilChan, wantErr: wantErr, noModel: !wantErr}
 	if !h.native {
 		rec.loBefore = snap(lo)
 	}
@@ -34,6 +40,9 @@ func spawnErrLookup[T any](h *hctx, name string, lo *storage.LookupOptions, capa
 			defer h.wg.Done()
 			for e := range vrt.Range(ch) {
 				rec.got = append(rec.got, fmt.Sprint(e))
+				if !h.native {
+					rec.loSeen = append(rec.loSeen, snap(lo))
+				}
 			}
 			rec.closed = true
 		})
@@ -51,26 +60,26 @@ func spawnErrLookup[T any](h *hctx, name string, lo *storage.LookupOptions, capa
 
 type errLookup struct {
 	name  string
-	spawn func(h *hctx, g storage.Graph, name string, lo *storage.LookupOptions, c int, nilChan bool)
+	spawn func(h *hctx, g storage.Graph, name string, lo *storage.LookupOptions, c int, nilChan, wantErr bool)
 }
 
 func errLookups() []errLookup {
-	tr := func(call func(g storage.Graph, lo *storage.LookupOptions, ch chan *triple.Triple) error) func(*hctx, storage.Graph, string, *storage.LookupOptions, int, bool) {
-		return func(h *hctx, g storage.Graph, name string, lo *storage.LookupOptions, c int, nilChan bool) {
-			spawnErrLookup(h, name, lo, c, nilChan, func(ch chan *triple.Triple) error { return call(g, lo, ch) })
+	tr := func(call func(g storage.Graph, lo *storage.LookupOptions, ch chan *triple.Triple) error) func(*hctx, storage.Graph, string, *storage.LookupOptions, int, bool, bool) {
+		return func(h *hctx, g storage.Graph, name string, lo *storage.LookupOptions, c int, nilChan, wantErr bool) {
+			spawnAnyLookup(h, name, lo, c, nilChan, wantErr, func(ch chan *triple.Triple) error { return call(g, lo, ch) })
 		}
 	}
-	pr := func(call func(g storage.Graph, lo *storage.LookupOptions, ch chan *predicate.Predicate) error) func(*hctx, storage.Graph, string, *storage.LookupOptions, int, bool) {
-		return func(h *hctx, g storage.Graph, name string, lo *storage.LookupOptions, c int, nilChan bool) {
-			spawnErrLookup(h, name, lo, c, nilChan, func(ch chan *predicate.Predicate) error { return call(g, lo, ch) })
+	pr := func(call func(g storage.Graph, lo *storage.LookupOptions, ch chan *predicate.Predicate) error) func(*hctx, storage.Graph, string, *storage.LookupOptions, int, bool, bool) {
+		return func(h *hctx, g storage.Graph, name string, lo *storage.LookupOptions, c int, nilChan, wantErr bool) {
+			spawnAnyLookup(h, name, lo, c, nilChan, wantErr, func(ch chan *predicate.Predicate) error { return call(g, lo, ch) })
 		}
 	}
 	return []errLookup{
-		{"Objects", func(h *hctx, g storage.Graph, name string, lo *storage.LookupOptions, c int, nilChan bool) {
-			spawnErrLookup(h, name, lo, c, nilChan, func(ch chan *triple.Object) error { return g.Objects(ctx, uS, uP1, lo, ch) })
+		{"Objects", func(h *hctx, g storage.Graph, name string, lo *storage.LookupOptions, c int, nilChan, wantErr bool) {
+			spawnAnyLookup(h, name, lo, c, nilChan, wantErr, func(ch chan *triple.Object) error { return g.Objects(ctx, uS, uP1, lo, ch) })
 		}},
-		{"Subjects", func(h *hctx, g storage.Graph, name string, lo *storage.LookupOptions, c int, nilChan bool) {
-			spawnErrLookup(h, name, lo, c, nilChan, func(ch chan *node.Node) error { return g.Subjects(ctx, uP1, uO1, lo, ch) })
+		{"Subjects", func(h *hctx, g storage.Graph, name string, lo *storage.LookupOptions, c int, nilChan, wantErr bool) {
+			spawnAnyLookup(h, name, lo, c, nilChan, wantErr, func(ch chan *node.Node) error { return g.Subjects(ctx, uP1, uO1, lo, ch) })
 		}},
 		{"PredicatesForSubjectAndObject", pr(func(g storage.Graph, lo *storage.LookupOptions, ch chan *predicate.Predicate) error {
 			return g.PredicatesForSubjectAndObject(ctx, uS, uO1, lo, ch)
@@ -113,7 +122,7 @@ func init() {
 				h.spawnUpdate(0, g, "add", 0b0011)
 				both := optionsFor("isTemporal")
 				both.LatestAnchor = true
-				el.spawn(h, g, el.name+"/latest+filter", both, c, false)
+				el.spawn(h, g, el.name+"/latest+filter", both, c, false, true)
 			}})
 		scenarios = append(scenarios, scenario{
 			Name: "S5d-" + el.name, Class: "S5d:nil-channel|Add:" + el.name,
@@ -121,7 +130,17 @@ func init() {
 			Body: func(h *hctx, c int) {
 				_, g := freshGraph(0b0100)
 				h.spawnUpdate(0, g, "add", 0b0011)
-				el.spawn(h, g, el.name+"/nilchan", optionsFor(""), c, true)
+				el.spawn(h, g, el.name+"/nilchan", optionsFor(""), c, true, true)
+			}})
+		// S3c: the lookup with LatestAnchor (the driver synthesizes a filter for it) next to a writer: it succeeds,
+		// closes, and the caller's options are the same before, at every receive and after
+		scenarios = append(scenarios, scenario{
+			Name: "S3c-" + el.name, Class: "S3c:LatestAnchor-options-untouched|Add:" + el.name,
+			Mode: explore.SleepSets, Initial: 0b1011,
+			Body: func(h *hctx, c int) {
+				_, g := freshGraph(0b1011)
+				h.spawnUpdate(0, g, "add", 0b0100)
+				el.spawn(h, g, el.name+"/latest", optionsFor("latest"), c, false, false)
 			}})
 	}
 }
